@@ -37,7 +37,7 @@ inductive Outcome (E α : Type) where
   | ioErr (k : IoKind)
   | panic (site : String)
   | outOfFuel
-  deriving Repr
+  deriving Repr, DecidableEq
 
 /-- I/O programs.  `eof := some e` marks a `map_eof` site: an UnexpectedEof from this request becomes the
     parse error `e`; any other I/O error — and UnexpectedEof where `eof = none` — ends the run with `ioErr`. -/
